@@ -167,7 +167,9 @@ pub fn eval(case: &J) -> Outcome {
             let y = guarded(|| f.value(&vals));
             let img = guarded(|| f.super_image(&tys));
             judge(&mut out, &format!("fn/{name}"), &format!("{name}({})", vals.iter().map(|v| v.to_string()).collect::<Vec<_>>().join(", ")),
-                  &format!("({})", tys.iter().map(|t| t.to_string()).collect::<Vec<_>>().join(", ")), y, img, &arg_class(&tys, &vals), scale_of(&vals));
+                  &format!("({})", tys.iter().map(|t| t.to_string()).collect::<Vec<_>>().join(", ")), y, img,
+                  // the text of a float zero: -0.0 and 0.0 are one member of float{0} and two texts (the recorded C11 / C12 signed-zero finding)
+                  &format!("{}{}", arg_class(&tys, &vals), if name == "CastAsText" && vals.iter().any(|v| crate::s_dtype::vclass(v) == "signed-zero") { "/signed-zero" } else { "" }), scale_of(&vals));
         }
         "agg" => {
             let name = case["f"].as_str().unwrap();
@@ -252,7 +254,7 @@ fn judge<E1: std::fmt::Display, E2: std::fmt::Display>(out: &mut Outcome, site: 
         Ok(Ok(y)) => {
             out.tag("value-ok");
             match img {
-                Ok(Ok(t)) => { if !mem_tol(&t, &y, arg_scale, site.contains("/Std")) { let cls = format!("{}{}{}", result_class(&y), if cls.contains("/huge") || crate::s_dtype::vclass(&y) == "huge" { "/huge" } else { "" }, if cls.ends_with("/wide") { "/wide" } else { "" }); out.fail(&format!("C06/{site}/unsound-image/{cls}"), format!("{what} = {y} but the propagated range of the arguments' type {set} is {t}, which does not contain it")); } }
+                Ok(Ok(t)) => { if !mem_tol(&t, &y, arg_scale, site.contains("/Std")) { let cls = format!("{}{}{}{}", result_class(&y), if cls.contains("/huge") || crate::s_dtype::vclass(&y) == "huge" { "/huge" } else { "" }, if cls.contains("/wide") { "/wide" } else { "" }, if cls.ends_with("/signed-zero") { "/signed-zero" } else { "" }); out.fail(&format!("C06/{site}/unsound-image/{cls}"), format!("{what} = {y} but the propagated range of the arguments' type {set} is {t}, which does not contain it")); } }
                 Ok(Err(e)) => out.fail(&format!("C06/{site}/image-fails/{}", result_class(&y)), format!("{what} = {y} but range propagation on {set} fails: {e}")),
                 Err(_) => {}
             }
